@@ -394,15 +394,15 @@ def case_strategy():
         "elem": st.one_of(et, et, et, st.sampled_from(NESTED)), "policy": POLICY, "m": st.sampled_from(["annotate", "typing"]),
         "src": st.sampled_from(["list", "list", "tuple"]),
     }).flatmap(lambda c: st.fixed_dictionaries({k: st.just(v) for k, v in c.items()} | {
-        "elems": st.lists(st.one_of(gen.conforming(c["elem"]), ELEMS if c["kind"] in ("list", "tuplev") else HELEMS).filter(
+        "elems": st.lists(st.one_of(gen.conforming(c["elem"]), gen.exact_values(c["elem"]), ELEMS if c["kind"] in ("list", "tuplev") else HELEMS).filter(
             lambda e: not _one_shot(e) and (c["kind"] in ("list", "tuplev") or gen._hashable_spec(e))), min_size=2, max_size=6)}))
     seq = seq.filter(lambda c: c["kind"] in ("list", "tuplev") or c["elem"]["k"] not in ("list", "dict"))
     mp = st.fixed_dictionaries({
         "part": st.just("map"), "key": st.sampled_from(KEY_TYPES), "val": st.one_of(et, et, st.sampled_from(NESTED)), "policy": POLICY,
         "m": st.sampled_from(["annotate", "typing"]),
     }).flatmap(lambda c: st.fixed_dictionaries({k: st.just(v) for k, v in c.items()} | {
-        "pairs": st.lists(st.tuples(st.one_of(gen.conforming(c["key"]), HELEMS).filter(gen._hashable_spec),
-                                    st.one_of(gen.conforming(c["val"]), ELEMS).filter(lambda e: not _one_shot(e))).map(list), min_size=2, max_size=5)}))
+        "pairs": st.lists(st.tuples(st.one_of(gen.conforming(c["key"]), gen.exact_values(c["key"]), gen.exact_values(c["key"]), HELEMS).filter(gen._hashable_spec),
+                                    st.one_of(gen.conforming(c["val"]), gen.exact_values(c["val"]), gen.exact_values(c["val"]), ELEMS).filter(lambda e: not _one_shot(e))).map(list), min_size=2, max_size=5)}))
     fld = st.fixed_dictionaries({}, optional={"on_error": st.sampled_from(POLICIES), "required": st.booleans(), "default": st.booleans()})
     data = st.fixed_dictionaries({
         "part": st.just("data"),
